@@ -83,11 +83,27 @@
          C04_apply_keeps_agreement_P2Pure, C04_cut_apply_retry_P2Pure, C04_resync_establishes_agreement_P2Pure,
          C04_pure_ok_P2Pure            the protocol theorems with the instance plugged in: no obligation premise left, only the
                                        well-formedness of the values of the step (wf_apply_at / wf_step);
-         C04_converged_P2Pure_partial  the run theorem over crun_wf (wf_step at every step): that wf_step is an INVARIANT of
-                                       the reachable worlds is not proved - wf_change and idx_compat of every proposal's
-                                       change are facts about the transaction layer, and the pair (inlined values, stored
-                                       map) right after the map write of a CUT status update can leave the domain
-                                       (C04_restore_cut_wf_refuted; what it stands for is unchanged there);
+         C04_converged_P2Pure_partial  the run theorem over crun_wf (wf_step at every step as a premise); superseded by
+         C04_reach_wf_P2Pure / C04_converged_P2Pure / C04_converged_reach_P2Pure: wf_step is an INVARIANT of every world
+                                       reached from the initial world by labels satisfying the boolean labels_wfb (each
+                                       northbound change a wf_change; no updated path of the run beneath another updated path
+                                       of the same target - values live at leaves) and complete invocations; hence the run
+                                       theorem for the instance with NO obligation premise, NO per-step premise and NO start
+                                       condition: whenever the configuration of t is SYNCHRONIZED in its current term the
+                                       device holds the live leaves of the applied values (device of t not restarted, t not
+                                       persistent, as in C04_converged_partial).  The invariant (Proofs/P2PureReachInv.v):
+                                       every stored / inlined map has unique proper keys and holds only values carried
+                                       verbatim from the stamped change of an existing proposal, or tombstones whose index is
+                                       0 or that of a proposal not updating that path - so equal path and index mean equal
+                                       content (idx_compat for every proposal); every recorded rollback value set is a
+                                       well-formed change (rollback_of specification of Proofs/P2PureRollbackRb.v + leaves);
+                                       after every complete invocation no live value lies beneath a tombstone in the stored
+                                       committed map, in the loaded view, in the loaded applied values.  Not covered: cut
+                                       invocations (C04_restore_cut_wf_refuted is where the pair leaves the domain);
+         C04_leaf_hypothesis_needed    the leaf part of labels_wfb cannot be dropped: two well-formed requests and a rollback
+                                       end APPLIED / SYNCHRONIZED with the device not holding the applied values (the rollback
+                                       values are "delete /a/b + update /a/b/c": the F-14 overlap made by the controller);
+         C04_good_run_P2Pure           all premises decided (run_premises) on a non-trivial run in several Go map orders;
          C04_wf_runs_P2Pure            crun_wf is checked step by step (run_ok, sound) on the F-23 scenario in every order and
                                        on a run with cascade, re-creation beneath tombstones, rollback, new term.
        Each hypothesis is needed: C04_overlap_apply_refuted (delete + update of related paths in one change: device-side
@@ -105,7 +121,8 @@
 From stdpp Require Import gmap.
 From RecordUpdate Require Import RecordUpdate.
 From Coq Require Import NArith.
-From OC Require Import Proofs.P2PureApplyDefs Proofs.P2PureApplyInst Proofs.P2PureApplyEx.
+From OC Require Import Proofs.P2PureApplyDefs Proofs.P2PureApplyInst Proofs.P2PureApplyEx Proofs.P2PureReachRun Proofs.P2PureReachLabels
+     Proofs.P2PureReachInit Proofs.P2PureReachEx.
 From OC Require Import Base.Bytes Model.P2Pure Model.Proto2 Model.P2Inst Proofs.P2Base Proofs.P2_Cursor Proofs.P2_Term Proofs.P2_Converge
      Proofs.P2_ConvergeEx.
 Open Scope N_scope.
@@ -457,6 +474,57 @@ Theorem C04_wf_runs_P2Pure :
   i_agrees (x_run (big_start ++ big_rest (x_oracle_ord 1))) 1.
 Proof. exact (conj P2PureApplyEx.lag_run_wf (conj P2PureApplyEx.big_run_wf P2PureApplyEx.big_run_agrees)). Qed.
 
+
+(** the well-formedness is an INVARIANT of the instance (Proofs/P2PureReach{Pure,Inv,Eff,Dyn,Run,Labels,Init,Ex}.v).
+    labels_wfb ls (boolean, on the label list - the only environment hypothesis): every change of every northbound request
+      (LChange) is a wf_change - unique proper keys = paths, no update beneath a delete of the same request (finding F-14
+      excluded) - and no updated path of the run lies beneath another updated path of the same target (values live at
+      leaves: what a schema guarantees; C04_leaf_hypothesis_needed shows it cannot be dropped).  Rollbacks need nothing.
+    completes p2_init ls: every reconcile invocation of the run executes all its effects (the run theorem is about complete
+      invocations anyway; the cut between a map write and the entry write is where the pair leaves the domain:
+      C04_restore_cut_wf_refuted).
+    quiet_env t ls: no restart of the device of t, t never declared persistent (as in C04_converged_partial). *)
+Theorem C04_reach_wf_P2Pure : forall (ls : list Label) t (l : Label),
+  labels_wfb ls = true -> completes p2_init ls -> wf_step (x_run ls) t l.
+Proof. exact P2PureReachLabels.reach_wf_step. Qed.
+
+(* the run theorem for the executable instance: no obligation premise, no per-step premise, no start condition *)
+Theorem C04_converged_P2Pure : forall (ls : list Label) t (C' : Cfg),
+  labels_wfb ls = true -> completes p2_init ls -> quiet_env t ls ->
+  cfgs (x_run ls) !! t = Some C' -> c_state C' = CSynchronized -> c_aterm C' = c_term C' -> i_agrees (x_run ls) t.
+Proof. exact P2PureReachInit.converged_from_init. Qed.
+
+(* the same from any world of such a run that satisfies the start condition conv (device agreeing, or empty with the
+   configuration not synchronised in its term): restarts and "persistent" switches are allowed BEFORE that world *)
+Theorem C04_converged_reach_P2Pure : forall (ls0 ls : list Label) t (C' : Cfg),
+  labels_wfb (ls0 ++ ls) = true -> completes p2_init (ls0 ++ ls) -> quiet_env t ls -> i_conv (x_run ls0) t ->
+  cfgs (x_run (ls0 ++ ls)) !! t = Some C' -> c_state C' = CSynchronized -> c_aterm C' = c_term C' ->
+  i_agrees (x_run (ls0 ++ ls)) t.
+Proof. exact P2PureReachLabels.converged_reach. Qed.
+
+(* the premises are decidable (run_premises, sound: checked_from_init) and hold on a non-trivial run: cascade, re-creation
+   beneath the tombstone, rollback of that change, connection loss, re-push in a new term - in several Go map orders *)
+Theorem C04_good_run_P2Pure :
+  Forall (fun ord => run_premises 1 (good_run ord) = true) [0; 1; 2; 5] /\ i_agrees (x_run (good_run 1)) 1.
+Proof. exact (conj P2PureReachEx.good_run_premises P2PureReachEx.good_run_agrees_from_init). Qed.
+
+(* values must live at leaves: every request well-formed, every invocation complete - the request "/a/b = 1, /a/b/c = 2" on
+   a configuration holding /a/b/c and its rollback leave all transactions APPLIED, the configuration SYNCHRONIZED, the
+   applied values {/a/b = 1, /a/b/c = 5} and the device empty: the rollback values recorded at validation are
+   "delete /a/b, update /a/b/c" - the delete/update overlap of finding F-14, produced by the controller itself *)
+Theorem C04_leaf_hypothesis_needed :
+  forallb label_wfb (leaf_run 0) = true /\ completesb p2_init (leaf_run 0) = true /\ quietb 1 (leaf_run 0) = true /\
+  labels_wfb (leaf_run 0) = false /\
+  (match props (x_run (leaf_run 0)) !! (1, 2) with
+   | Some P => option_map (fun rb => (map (fun kv => (fst kv, pv_val (snd kv), pv_deleted (snd kv), pv_index (snd kv))) rb, wf_changeb rb)) (p_rbvalues P)
+   | None => None
+   end) = Some ([(B "/a/b", [], true, 0); (B "/a/b/c", B "5", false, 1)], false) /\
+  lag_summary (x_run (leaf_run 0)) =
+    ([(1, TApplied); (3, TApplied); (2, TApplied)],
+     [(3, 3, CSynchronized, 1, 1, [(B "/a/b", B "1"); (B "/a/b/c", B "5")], [])], [[]]) /\
+  ~ i_agrees (x_run (leaf_run 0)) 1.
+Proof. exact P2PureReachEx.leaf_hypothesis_needed. Qed.
+
 Print Assumptions C04_device_changes_only_by_ok_requests.
 Print Assumptions C04_device_state_is_fold.
 Print Assumptions C04_restart_empties.
@@ -498,3 +566,8 @@ Print Assumptions C04_cut_apply_retry_P2Pure.
 Print Assumptions C04_resync_establishes_agreement_P2Pure.
 Print Assumptions C04_converged_P2Pure_partial.
 Print Assumptions C04_wf_runs_P2Pure.
+Print Assumptions C04_reach_wf_P2Pure.
+Print Assumptions C04_converged_P2Pure.
+Print Assumptions C04_converged_reach_P2Pure.
+Print Assumptions C04_good_run_P2Pure.
+Print Assumptions C04_leaf_hypothesis_needed.
